@@ -12,6 +12,7 @@ import (
 
 	dawn "github.com/pgavlin/dawn"
 	"github.com/pgavlin/dawn/diff"
+	"github.com/pgavlin/dawn/internal/verif/vos"
 	"github.com/pgavlin/dawn/internal/verif/vsched"
 	"github.com/pgavlin/dawn/label"
 	"go.starlark.net/starlark"
@@ -109,6 +110,7 @@ func hashFiles(files map[string]string) string {
 // ---- events -----------------------------------------------------------------------------------
 
 type Event struct {
+	At     int // number of persistent effects performed when the event was emitted (controlled mode)
 	Kind   string
 	Label  string
 	Reason string
@@ -126,6 +128,7 @@ type recorder struct {
 func newRecorder() *recorder { return &recorder{Events: dawn.DiscardEvents} }
 
 func (r *recorder) add(e Event) {
+	e.At = vsched.EffectCount()
 	r.mu.Lock()
 	r.ev = append(r.ev, e)
 	r.mu.Unlock()
@@ -164,12 +167,13 @@ func (r *recorder) RunDone(err error) { r.add(Event{Kind: "RunDone", Err: es(err
 // ---- builtins available to target bodies ----------------------------------------------------------
 
 type bodyEnv struct {
-	root  string
-	fail  map[string]bool
-	mu    sync.Mutex
-	steps []string // bodies that started, in order
-	emits []string
-	obj   vsched.Obj
+	root   string
+	fail   map[string]bool
+	mu     sync.Mutex
+	steps  []string // bodies that started, in order
+	stepAt map[string]int
+	emits  []string
+	obj    vsched.Obj
 }
 
 func (b *bodyEnv) builtins() starlark.StringDict {
@@ -179,6 +183,10 @@ func (b *bodyEnv) builtins() starlark.StringDict {
 			name := str(args[0])
 			b.mu.Lock()
 			b.steps = append(b.steps, name)
+			if b.stepAt == nil {
+				b.stepAt = map[string]int{}
+			}
+			b.stepAt[name] = vsched.EffectCount()
 			b.mu.Unlock()
 			if b.fail[name] {
 				return nil, fmt.Errorf("body %s fails", name)
@@ -234,6 +242,17 @@ type buildResult struct {
 	AfterLd  map[string]string // tree after Load, before Run (only when wanted)
 	After    map[string]string // tree after the operation
 	Executed map[string]bool   // function-target labels whose body started
+	StepAt   map[string]int
+	Sched    *vsched.Result
+}
+
+// controlled: run every build under the vsched scheduler (the binary is then built with the
+// sync/os rewriting of the root package); ctl carries the per-build scheduler options.
+var controlled bool
+
+type ctlOpts struct {
+	prefix   []int
+	onEffect func(idx int, desc string)
 }
 
 type buildOpts struct {
@@ -246,6 +265,27 @@ type buildOpts struct {
 
 // build materialises nothing: it loads the project found at root and runs one operation.
 func build(root string, v Vars, o buildOpts) *buildResult {
+	return buildCtl(root, v, o, ctlOpts{})
+}
+
+func buildCtl(root string, v Vars, o buildOpts, c ctlOpts) *buildResult {
+	if !controlled {
+		return buildRaw(root, v, o)
+	}
+	var res *buildResult
+	vos.ResetTemp()
+	sr := vsched.Execute(c.prefix, vsched.Options{NumCPU: 2, OnEffect: c.onEffect, Horizon: 50000}, func() {
+		res = buildRaw(root, v, o)
+	})
+	if res == nil {
+		res = &buildResult{Executed: map[string]bool{}, LoadErr: fmt.Errorf("build did not return: %s%s%s", sr.Deadlock, sr.Livelock, sr.Panic)}
+		res.After = readTree(root)
+	}
+	res.Sched = sr
+	return res
+}
+
+func buildRaw(root string, v Vars, o buildOpts) *buildResult {
 	res := &buildResult{Executed: map[string]bool{}}
 	rec := newRecorder()
 	be := &bodyEnv{root: root, fail: map[string]bool{}}
@@ -277,6 +317,7 @@ func build(root string, v Vars, o buildOpts) *buildResult {
 	}
 	res.Events = rec.ev
 	res.Steps = be.steps
+	res.StepAt = be.stepAt
 	res.Emits = be.emits
 	res.After = readTree(root)
 	for _, s := range be.steps {
